@@ -42,6 +42,8 @@ func execDescriptor(line string) *result {
 		return runDebounce(line)
 	case len(f) > 0 && f[0] == "config":
 		return runConfig(line)
+	case len(f) > 0 && f[0] == "taskpanic":
+		return runTaskPanic(line)
 	}
 
 	return nil
@@ -67,6 +69,11 @@ func flush(r *hx.Run, sub uint64, res *result) {
 }
 
 func main() {
+	if len(os.Args) == 4 && os.Args[1] == "--taskpanic-inner" {
+		taskPanicInner(os.Args[2], os.Args[3])
+
+		return
+	}
 	if len(os.Args) == 4 && os.Args[1] == "--child" {
 		childMain(os.Args[2], os.Args[3])
 
@@ -81,7 +88,7 @@ func main() {
 	if lines := r.ReplayLines(); lines != nil {
 		for _, l := range lines {
 			f := strings.Fields(l)
-			if len(f) > 0 && (f[0] == "sched" || f[0] == "run" || f[0] == "group" || f[0] == "hammer" || f[0] == "lockrace" || f[0] == "sync" || f[0] == "debounce" || f[0] == "config") {
+			if len(f) > 0 && (f[0] == "sched" || f[0] == "run" || f[0] == "group" || f[0] == "hammer" || f[0] == "lockrace" || f[0] == "sync" || f[0] == "debounce" || f[0] == "config" || f[0] == "taskpanic") {
 				jobs = append(jobs, job{0, l})
 			}
 		}
@@ -117,6 +124,7 @@ func main() {
 		}
 		jobs = append(jobs, job{0, fmt.Sprintf("hammer %d 1", 1500*r.Scale)}, job{0, fmt.Sprintf("hammer %d 2", 1500*r.Scale)})
 		jobs = append(jobs, job{0, fmt.Sprintf("lockrace %d 1", 150*r.Scale)})
+		jobs = append(jobs, job{0, "taskpanic 1 false"}, job{0, "taskpanic 3 true"})
 		jobs = append(jobs, job{0, "config 1"}, job{0, "sync seq 1 80"}, job{0, "sync seq 2 200"},
 			job{0, "debounce 1 1 50 1"}, job{0, "debounce 2 3 200 2"}, job{0, "debounce 4 4 300 3"})
 		for _, d := range groupCorpus() {
